@@ -435,6 +435,28 @@ def closure(initial, names, target, d, search_limit=25, cap=20000, on_step=None)
         stats["transitions"] += len(r.successors)
         if not r.successors:
             stats["dead_states"] += 1
+        # diagnostic only (the property does not prescribe the acceptance formula): thresholds the code compared its
+        # uniform against vs the documented ratio prod(target[new pairings]) / prod(target[removed pairings])
+        for post, thr in r.thresholds:
+            jd = dict(s[0])
+            old_e = {(u, v): top for u, v, top, mid in s[1]}
+            new_e = {(u, v): top for u, v, top, mid in post[1]}
+
+            def w(u, v, top):
+                i = names.index(top)
+                a = tuple(x - (1 if j == i else 0) for j, x in enumerate(jd[u]))
+                b = tuple(x - (1 if j == i else 0) for j, x in enumerate(jd[v]))
+                return target[top].get(a + b, 0.0)
+            num = den = 1.0
+            for e, top in new_e.items():
+                if e not in old_e:
+                    num *= w(e[0], e[1], top)
+            for e, top in old_e.items():
+                if e not in new_e:
+                    den *= w(e[0], e[1], top)
+            stats["thresholds_seen"] = stats.get("thresholds_seen", 0) + 1
+            if den > 0 and abs(min(1.0, thr) - min(1.0, num / den)) > 1e-9:
+                stats["thresholds_off"] = stats.get("thresholds_off", 0) + 1
         graph[s] = list(r.successors)
         for p in r.problems:
             problems.append(p + (seen[s],))
